@@ -1140,7 +1140,9 @@ mod range_number_impl {
                     }
 
                     fn from_f64(v: f64) -> Option<Self> {
-                        Some(v as $num_type)
+                        // a number too big for the type would become `inf`
+                        let v = v as $num_type;
+                        v.is_finite().then_some(v)
                     }
 
                     fn is_finite_number(&self) -> bool {
